@@ -34,6 +34,31 @@ CHECKS = {
         "valuation of the single opaque predicate (ISO 3166 lookup). The decision covers all Unicode strings of all lengths at once and yields a shortest counter-example as witness.",
    note="Trusted: re._parser's AST equals what the re engine executes; \\d/\\s categories via str.isdecimal/isspace; texts are clean()-normalised (C10); pycountry is an opaque predicate.",
    design="3/C04"),
+ "C01": dict(
+   technique="symbolic path enumeration of IBAN validators (fork over all table keys) + regular-language equality per country and per valuation of the arithmetic conditions; constants of the opaque arithmetic terms evaluated",
+   text="For each of the 126 countries and each feasible valuation of the opaque arithmetic conditions, the language of texts accepted by the constructor and by is_valid is proved equal (as automata over a code-point partition) "
+        "to country code + two digits + the structure classes of the bundled table, or empty when a condition fails; the arithmetic conditions are shown to be N mod 97 == 1 over [4:]+[0:4] and "
+        "digits == 98-(100 N mod 97) over [4:]+[0:2]; numerify is tabulated per character. All strings, all lengths, all countries at once.",
+   note="Trusted: re._parser, str.isdecimal/isspace, CPython integer arithmetic; the MOD 97-10 identity itself is a paper argument; table vs SWIFT registry not decided.",
+   design="3/C01"),
+ "C02": dict(
+   technique="evaluation of the extracted check-digit term over all residues + language equality per valuation + symbolic evaluation of from_bban",
+   text="The recomputed-digits term of the validator and the digits term of from_bban are extracted symbolically and evaluated for every residue: both equal 98-(100 N mod 97) formatted to two digits (range 02..98); "
+        "acceptance requires the recomputed digits to equal characters 3-4 for every country (aliases 00/01/99 rejected: the valuation 'remainder ok, recompute differs' has an empty accept language); from_bban assembles country+digits+BBAN over the same input.",
+   note="Uniqueness is decided as 'at most one, namely the computed pair'; that the computed pair also leaves remainder 1 is the ISO 7064 identity (paper).",
+   design="3/C02"),
+ "C03": dict(
+   technique="premises of the mod-97 detection lemma decided on the source (guards on every accepting path, numerify table, permutation of indices) + the lemma evaluated on extracted constants and table data",
+   text="P1 every accepting path passes a mod-97 condition; P2/P3 numerify is decimal concatenation of 0..9/10..35 in order over a rearrangement covering each index once; P4 the extracted modulus is prime, exceeds every same-kind delta, "
+        "ord(10) exceeds the longest expanded number of the table, 10^w-1 is non-zero; P5 kind-changing substitutions are rejected by the class check (language inclusion).",
+   note="The conclusion is the stated lemma, not derived by the checker.",
+   design="3/C03"),
+ "C05": dict(
+   technique="exception-escape analysis by exhaustive symbolic path enumeration with per-character-class summaries of helper functions; language comparison of the three entry points; defect-language check per raised class",
+   text="Every path of IBAN/BIC __init__, validate, is_valid (all flags) is enumerated with its regular language; any path ending in a non-library exception is reported with a shortest witness (this found the non-ASCII-digit ValueError). "
+        "is_valid returns a bool on every path; constructor, validate and is_valid accept the same language under every valuation; each raised class is checked against the language of texts that have that defect.",
+   note="National algorithms under validate_bban are opaque here and decided per country in C06. Message texts are not checked.",
+   design="3/C05"),
 }
 NA_REASON = "check not built yet (work in progress; see DESIGN.md section 3 for the plan)"
 
